@@ -2,7 +2,8 @@
 //! Every operation runs under catch_unwind; the observable result is recorded after each one.
 //! A history ends at the first panic (the handle may be half-updated afterwards).
 use falcon::architecture::Endian;
-use falcon::il::Constant;
+use falcon::il::{Constant, Expression};
+use falcon::memory::Value;
 use falcon::memory::backing;
 use falcon::memory::paged::Memory;
 use falcon::memory::MemoryPermissions;
@@ -47,8 +48,45 @@ fn back_coq(b: &backing::Memory, e: &Endian) -> String {
     format!("(mkback {} {})", e_coq(e), coq_list(secs))
 }
 
+/// stored value: a constant, or (expression stream) a small tree with constant leaves, mirrored by `rexpr`
+#[derive(Clone)]
+enum Tree {
+    Const(BigUint, usize),
+    Bin(&'static str, Box<Tree>, Box<Tree>),
+    Zext(usize, Box<Tree>),
+}
+impl Tree {
+    fn coq(&self) -> String {
+        match self {
+            Tree::Const(v, w) => format!("(RConst {} {})", z_big(v), w),
+            Tree::Bin(o, a, b) => format!("(RBin {} {} {})", o, a.coq(), b.coq()),
+            Tree::Zext(w, a) => format!("(RExt Zext {} {})", w, a.coq()),
+        }
+    }
+    fn build(&self) -> Expression {
+        match self {
+            Tree::Const(v, w) => Expression::constant(Constant::new_big(v.clone(), *w)),
+            Tree::Bin(o, a, b) => match *o {
+                "Add" => Expression::add(a.build(), b.build()).unwrap(),
+                "Xor" => Expression::xor(a.build(), b.build()).unwrap(),
+                _ => Expression::and(a.build(), b.build()).unwrap(),
+            },
+            Tree::Zext(w, a) => Expression::zext(*w, a.build()).unwrap(),
+        }
+    }
+    fn show(&self) -> String { format!("{}", self.build()) }
+}
+fn gen_tree(r: &mut Rng, w: usize, v: BigUint) -> Tree {
+    if w == 0 { return Tree::Const(v, w); }
+    match r.below(10) {
+        0 | 1 => Tree::Bin(*r.pick(&["Add", "Xor", "And"]), Box::new(Tree::Const(v, w)), Box::new(Tree::Const(r.big(w), w))),
+        2 if w > 8 => { let sw = w - 8; Tree::Zext(w, Box::new(Tree::Const(r.big(sw), sw))) }
+        _ => Tree::Const(v, w),
+    }
+}
+
 enum Op {
-    Store(usize, u64, Constant),
+    Store(usize, u64, Tree, usize),
     Load(usize, u64, usize),
     Clone(usize, usize),
     New(usize, Endian, Option<usize>),
@@ -111,38 +149,39 @@ fn flip(e: &Endian) -> Endian {
 }
 fn hex(v: &BigUint) -> String { format!("0x{:x}", v) }
 
-fn gen_case(seed: u64, idx: u64) -> Case {
+/// one history over three handles of Memory<V>.  `mk` builds the stored value from its tree,
+/// `ev` turns a loaded value into the constant it denotes (identity / executor::eval).
+fn gen_case_v<V: Value>(seed: u64, idx: u64, expr_mode: bool, mk: &dyn Fn(&Tree) -> V,
+                        ev: &dyn Fn(&V) -> Result<Constant, falcon::Error>) -> Case {
     let mut rng = Rng::for_case(seed, idx);
     let r = &mut rng;
     let endian = if r.chance(1, 2) { Endian::Little } else { Endian::Big };
     let bs = bases(r);
-    // backing table: entry 0 (used by the initial memory in half of the histories), entry 1 either an
-    // equal copy (distinct RC) or a different backing
     let mut backs: Vec<Back> = vec![];
     let has_backing = r.chance(1, 2);
     backs.push(gen_back(r, &endian, &bs));
     if r.chance(1, 2) { let c = backs[0].clone(); backs.push(c); } else { let b = gen_back(r, &endian, &bs); backs.push(b); }
     let built: Vec<RC<backing::Memory>> = backs.iter().map(|b| RC::new(b.build())).collect();
-    let mk = |e: &Endian, b: Option<usize>| -> Memory<Constant> {
+    let mkmem = |e: &Endian, b: Option<usize>| -> Memory<V> {
         match b {
             Some(i) => Memory::new_with_backing(e.clone(), RC::new((*built[i]).clone())),
             None => Memory::new(e.clone()),
         }
     };
     let b0 = if has_backing { Some(0) } else { None };
-    let m0 = match b0 { Some(i) => Memory::new_with_backing(endian.clone(), built[i].clone()), None => Memory::new(endian.clone()) };
-    let mut hs: Vec<Memory<Constant>> = vec![m0.clone(), m0.clone(), m0];
+    let m0: Memory<V> = match b0 { Some(i) => Memory::new_with_backing(endian.clone(), built[i].clone()), None => Memory::new(endian.clone()) };
+    let mut hs: Vec<Memory<V>> = vec![m0.clone(), m0.clone(), m0];
 
     let nops = r.range(1, 60);
     let malformed_history = r.chance(1, 8);
     let mut earlier: Vec<u64> = backs[0].secs.iter().map(|s| s.addr).collect();
     if !has_backing { earlier.clear(); }
-    // per handle: ranges stored so far (for the non-triviality rule)
     let mut ranges: Vec<Vec<(u64, u64)>> = vec![vec![], vec![], vec![]];
     let (mut overlap, mut cross, mut wrapped, mut loads_none, mut loads_some, mut panicked) = (0u32, 0u32, 0u32, 0u32, 0u32, false);
     let mut kinds = std::collections::BTreeSet::new();
     let mut coq_ops: Vec<String> = vec![];
-    let mut descr = format!("{} backing={}", e_coq(&endian), if has_backing { "yes" } else { "no" });
+    let mut descr = format!("{}{} backing={}", if expr_mode { "V=Expression " } else { "" }, e_coq(&endian), if has_backing { "yes" } else { "no" });
+    let wrap_other = |s: String| -> String { if expr_mode { format!("EOther ({})", s) } else { s } };
     for _ in 0..nops {
         let h = r.below(3) as usize;
         let k = r.below(100);
@@ -150,7 +189,8 @@ fn gen_case(seed: u64, idx: u64) -> Case {
             let w = if malformed_history && r.chance(1, 4) { *r.pick(&BAD_WIDTHS) } else { *r.pick(&WIDTHS) };
             let a = gen_addr(r, &bs, &earlier);
             let v = match r.below(6) { 0 => BigUint::from(0u32), 1 => (BigUint::from(1u32) << w) - BigUint::from(1u32), _ => r.big(w) };
-            Op::Store(h, a, Constant::new_big(v, w))
+            let t = if expr_mode { gen_tree(r, w, v) } else { Tree::Const(v, w) };
+            Op::Store(h, a, t, w)
         } else if k < 75 {
             let w = if malformed_history && r.chance(1, 4) { *r.pick(&BAD_WIDTHS) } else { *r.pick(&WIDTHS) };
             Op::Load(h, gen_addr(r, &bs, &earlier), w)
@@ -168,11 +208,12 @@ fn gen_case(seed: u64, idx: u64) -> Case {
             Op::Eq(h, r.below(3) as usize)
         };
         let (coq, d, was_panic) = match op {
-            Op::Store(h, a, c) => {
+            Op::Store(h, a, t, w) => {
                 kinds.insert("store");
-                let bytes = (c.bits() / 8) as u64;
-                let o = observe(|| hs[h].store(a, c.clone()));
-                if c.bits() >= 8 && c.bits() % 8 == 0 {
+                let bytes = (w / 8) as u64;
+                let val = mk(&t);
+                let o = observe(|| hs[h].store(a, val.clone()));
+                if w >= 8 && w % 8 == 0 {
                     match a.checked_add(bytes) {
                         Some(end) => {
                             if ranges[h].iter().any(|(s, e)| a < *e && *s < end) { overlap += 1; }
@@ -183,15 +224,17 @@ fn gen_case(seed: u64, idx: u64) -> Case {
                     }
                 }
                 earlier.push(a);
-                (format!("(OStore {} {} {} {}, BUnit {})", h, a, c.bits(), z_big(c.value()), o.coq(|_| "tt".into())),
-                 format!("h{}.store(0x{:x},{}:{})={}", h, a, hex(c.value()), c.bits(), o.kind()), matches!(o, Obs::Panic))
+                let lhs = if expr_mode { format!("EStore {} {} {}", h, a, t.coq()) }
+                          else { match &t { Tree::Const(v, w) => { let c = Constant::new_big(v.clone(), *w); format!("OStore {} {} {} {}", h, a, c.bits(), z_big(c.value())) } _ => unreachable!() } };
+                (format!("({}, BUnit {})", lhs, o.coq(|_| "tt".into())),
+                 format!("h{}.store(0x{:x},{})={}", h, a, t.show(), o.kind()), matches!(o, Obs::Panic))
             }
             Op::Load(h, a, w) => {
                 kinds.insert("load");
-                let o = observe(|| hs[h].load(a, w));
+                let o = observe(|| match hs[h].load(a, w)? { Some(x) => Ok(Some(ev(&x)?)), None => Ok(None) });
                 match &o { Obs::Ok(None) => loads_none += 1, Obs::Ok(Some(_)) => loads_some += 1, _ => {} }
                 let show = match &o { Obs::Ok(Some(c)) => format!("{}:{}", hex(c.value()), c.bits()), Obs::Ok(None) => "None".into(), x => x.kind() };
-                (format!("(OLoad {} {} {}, BLoad {})", h, a, w, o.coq(|x| coq_opt(x.as_ref().map(|c| format!("(mkc {} {})", c.bits(), z_big(c.value())))))),
+                (format!("({}, BLoad {})", wrap_other(format!("OLoad {} {} {}", h, a, w)), o.coq(|x| coq_opt(x.as_ref().map(|c| format!("(mkc {} {})", c.bits(), z_big(c.value())))))),
                  format!("h{}.load(0x{:x},{})={}", h, a, w, show), matches!(o, Obs::Panic))
             }
             Op::Clone(s, d) => {
@@ -200,33 +243,33 @@ fn gen_case(seed: u64, idx: u64) -> Case {
                 hs[d] = c;
                 let rs = ranges[s].clone();
                 ranges[d] = rs;
-                (format!("(OClone {} {}, BUnit (Ok tt))", s, d), format!("h{}=h{}.clone()", d, s), false)
+                (format!("({}, BUnit (Ok tt))", wrap_other(format!("OClone {} {}", s, d))), format!("h{}=h{}.clone()", d, s), false)
             }
             Op::New(h, e, b) => {
                 kinds.insert("new");
-                hs[h] = mk(&e, b);
+                hs[h] = mkmem(&e, b);
                 ranges[h].clear();
-                (format!("(ONew {} {} {}, BUnit (Ok tt))", h, e_coq(&e), coq_opt(b.map(|i| format!("{}%nat", i)))),
+                (format!("({}, BUnit (Ok tt))", wrap_other(format!("ONew {} {} {}", h, e_coq(&e), coq_opt(b.map(|i| format!("{}%nat", i)))))),
                  format!("h{}=new({},{:?})", h, e_coq(&e), b), false)
             }
             Op::SetPerm(h, a, len, p) => {
                 kinds.insert("set_permissions");
                 let o = observe(|| { hs[h].set_permissions(a, len, MemoryPermissions::from_bits_truncate(p)); Ok(()) });
-                (format!("(OSetPerm {} {} {} {}, BUnit {})", h, a, len, p, o.coq(|_| "tt".into())),
+                (format!("({}, BUnit {})", wrap_other(format!("OSetPerm {} {} {} {}", h, a, len, p)), o.coq(|_| "tt".into())),
                  format!("h{}.set_permissions(0x{:x},{},{})={}", h, a, len, p, o.kind()), matches!(o, Obs::Panic))
             }
             Op::Perm(h, a) => {
                 kinds.insert("permissions");
                 let o = observe(|| Ok(hs[h].permissions(a).map(|p| p.bits())));
                 let show = match &o { Obs::Ok(x) => format!("{:?}", x), x => x.kind() };
-                (format!("(OPerm {} {}, BPerm {})", h, a, o.coq(|x| coq_opt(x.map(|p| p.to_string())))),
+                (format!("({}, BPerm {})", wrap_other(format!("OPerm {} {}", h, a)), o.coq(|x| coq_opt(x.map(|p| p.to_string())))),
                  format!("h{}.permissions(0x{:x})={}", h, a, show), matches!(o, Obs::Panic))
             }
             Op::Eq(h1, h2) => {
                 kinds.insert("eq");
                 let o = observe(|| Ok(hs[h1] == hs[h2]));
                 let show = match &o { Obs::Ok(x) => format!("{}", x), x => x.kind() };
-                (format!("(OEq {} {}, BEq {})", h1, h2, o.coq(|x| coq_bool(*x).to_string())),
+                (format!("({}, BEq {})", wrap_other(format!("OEq {} {}", h1, h2)), o.coq(|x| coq_bool(*x).to_string())),
                  format!("h{}==h{}:{}", h1, h2, show), matches!(o, Obs::Panic))
             }
         };
@@ -235,8 +278,9 @@ fn gen_case(seed: u64, idx: u64) -> Case {
         if was_panic { panicked = true; break; }
     }
     let table = coq_list(built.iter().zip(backs.iter()).map(|(b, s)| back_coq(b, &s.endian)));
-    let coq = format!("KHist {} {} {} {}", e_coq(&endian), table, coq_opt(b0.map(|i| format!("{}%nat", i))), coq_list(coq_ops.iter().cloned()));
-    let mut tags = vec![format!("endian:{}", e_coq(&endian)), format!("backing:{}", has_backing), format!("ops:{}", (coq_ops.len() / 10) * 10)];
+    let body = format!("{} {} {} {}", e_coq(&endian), table, coq_opt(b0.map(|i| format!("{}%nat", i))), coq_list(coq_ops.iter().cloned()));
+    let coq = if expr_mode { format!("KE {}", body) } else { format!("KC (KHist {})", body) };
+    let mut tags = vec![format!("value:{}", if expr_mode { "Expression" } else { "Constant" }), format!("endian:{}", e_coq(&endian)), format!("backing:{}", has_backing), format!("ops:{}", (coq_ops.len() / 10) * 10)];
     for k in &kinds { tags.push(format!("has:{}", k)); }
     if overlap > 0 { tags.push("has:overlapping-store".into()); }
     if cross > 0 { tags.push("has:page-crossing-store".into()); }
@@ -250,6 +294,17 @@ fn gen_case(seed: u64, idx: u64) -> Case {
     Case { coq, descr, tags, nontrivial: overlap > 0 || cross > 0, key: format!("{:016x}", hsh) }
 }
 
+/// three histories in four over Memory<il::Constant>, one in four over Memory<il::Expression>
+fn gen_case(seed: u64, idx: u64) -> Case {
+    if idx % 4 == 3 {
+        gen_case_v::<Expression>(seed, idx, true, &|t| t.build(), &|x| falcon::executor::eval(x))
+    } else {
+        gen_case_v::<Constant>(seed, idx, false,
+            &|t| match t { Tree::Const(v, w) => Constant::new_big(v.clone(), *w), _ => unreachable!() },
+            &|c| Ok(c.clone()))
+    }
+}
+
 fn main() {
     quiet_panics();
     let args = parse_args();
@@ -257,6 +312,6 @@ fn main() {
     let cases: Vec<Case> = idxs.iter().map(|i| gen_case(args.seed, *i)).collect();
     let nt = cases.iter().filter(|c| c.nontrivial).count();
     write_cases(&args, "C08",
-        "From Coq Require Import ZArith List NArith.\nFrom Falcon Require Import Base.Res IL.Const Mem.PagedTypes Mem.Paged Mem.C08Check.\nImport ListNotations.\nLocal Open Scope Z_scope.",
-        "ck", &cases, std::cmp::max(16, (cases.len() + 249) / 250), serde_json::json!({"nontrivial_histories": nt}));
+        "From Coq Require Import ZArith List NArith.\nFrom Falcon Require Import Base.Res IL.Const IL.Expr Mem.PagedTypes Mem.Paged Mem.C08Check Mem.C08CheckE.\nImport ListNotations.\nLocal Open Scope Z_scope.",
+        "cke", &cases, std::cmp::max(16, (cases.len() + 249) / 250), serde_json::json!({"nontrivial_histories": nt}));
 }
